@@ -460,6 +460,18 @@ let exec (toks : string list) =
         drop_logs ();
         line ("lookup res=" ^ (match cfg_searchpath (!w).w_fs sp nm with
             | None -> "-" | Some s -> hex_of_string (unsubst_root (string_of_str s)))))
+  | ["spec_parse"; c; t] -> with_ctx "spec_parse" c (fun _ cfg _ ->
+      (* the reference meaning (coq/Grammar.v) of TEXT in the current state of context C; nothing is modified *)
+      let text = (match ostr_of_hex t with Some s -> cstr s | None -> []) in
+      let ww = !w in
+      let ((((toks, e), _), _), _) =
+        lex_all ww.w_env (nat_of_int 1000000) (scan_begin lex_init text) { p_file = None; p_line = n_of_int 1 } [] [] in
+      (match e with
+       | TEof ->
+         (match text_meaning strtod_o cfg toks with
+          | Some c' -> let b = Buffer.create 256 in dump_cfg b c'; line ("spec_parse rc=accept obs=" ^ Buffer.contents b)
+          | None -> line "spec_parse rc=reject")
+       | _ -> line "spec_parse rc=reject"))
   | ["failalloc"; _] -> line "failalloc rc=unsupported"
   | ["live"] -> line "live rc=unsupported"
   | cmd :: _ -> line (cmd ^ " rc=badcmd")
